@@ -177,6 +177,14 @@ def work(job):
     st = smt.Stats()
     smt.STATS = st
     out = {"spec": spec, "sigs": [], "paths": 0, "forks": 0, "samples": [], "encoded": [], "replays": 0, "unwound": 0, "name": str(spec)}
+    import contextlib
+    import io as _io
+
+    with contextlib.redirect_stderr(_io.StringIO()):
+        return _work(pid, spec, st, out)
+
+
+def _work(pid, spec, st, out):
     try:
         if pid == "C16":
             obligations_pixels(out, spec, st, pid)
@@ -584,14 +592,16 @@ def obligations_size(out, spec, st):
             if v == "sat":
                 out["sigs"].append(("header:maxtoppm:geometry", f"{case.name}: announced size differs from what the options / header dictate", {"case": str(spec)}))
             n = len(p["samples"])
-            v, m = smt.check(pre + [ct * rt * 3 != n], 20000, True, stats=st)
+            # well-formed input: the file holds all the rows the header / options announce (shorter files are C19's subject)
+            enough = z3.ULE(z3.LShR(ct + 7, bv(3)) * rt, bv(len(p["data"])))
+            v, m = smt.check(pre + [enough, ct * rt * 3 != n], 20000, True, stats=st)
             st.bump("obligations")
             st.bump(v)
             if v == "sat":
                 cv, rv = m.eval(ct, model_completion=True).as_long(), m.eval(rt, model_completion=True).as_long()
                 real, raw = case.replay(m)
                 out["replays"] += 1
-                cls = "width-not-multiple-of-8" if cv % 8 else "short-input" if isinstance(real, tuple) and len(raw) < (case.params["skip"] or 0) + 5 + (cv // 8) * rv else "other"
+                cls = "width-not-multiple-of-8" if cv % 8 else "other"
                 out["sigs"].append((f"sample-count:maxtoppm:{cls}", f"{case.name}: {cv}x{rv} announced, {n} samples written (input {raw.hex()})", {"case": str(spec), "input_hex": raw.hex()}))
     if len(out["samples"]) < 1:
         out["samples"].append({"case": case.name, "paths": out["paths"]})
@@ -685,6 +695,14 @@ def obligations_damage(out, spec, st):
 
 
 def truncation_sweeps(out, spec, st):
+    import contextlib
+    import io as _io
+
+    with contextlib.redirect_stderr(_io.StringIO()):
+        return _truncation_sweeps(out, spec, st)
+
+
+def _truncation_sweeps(out, spec, st):
     """concrete well-formed files of the fixed-size formats, every truncation point near each structural boundary,
     run through the REAL decoder (fixed-size formats cannot be completed symbolically): success must mean complete"""
     import io
@@ -714,7 +732,7 @@ def truncation_sweeps(out, spec, st):
             out["paths"] += 1
             if stt == "ok" and len(o) != expect:
                 out["sigs"].append(("silent:mgetoppm:truncated-rle", f"MGE truncated to {L} bytes: success with {len(o)} output bytes", {"length": L}))
-        stt, o = run(full + b"\x05\x06\x00")
+        stt, o = run(full[:-1] + b"\x05\x06\x00")
         if stt == "ok" and len(o) != expect:
             out["sigs"].append(("silent:mgetoppm:runs-after-full-picture", f"MGE with an extra run after the picture is full: {len(o)} output bytes instead of {expect}", {}))
         stt, o = run(full)
@@ -792,11 +810,15 @@ def truncation_sweeps(out, spec, st):
                     f.write(raw)
                 try:
                     V.start([os.path.join(d, "i.vef"), os.path.join(d, "o.png")])
+                except BaseException as e:  # noqa: BLE001
+                    return type(e).__name__, 0, 0
+                # the tool reported success: is the file it wrote a complete image?
+                try:
                     rd = _png.Reader(filename=os.path.join(d, "o.png"))
                     w, h, rows, info = rd.read()
                     return "ok", sum(len(r) for r in rows), w * h
-                except BaseException as e:  # noqa: BLE001
-                    return type(e).__name__, 0, 0
+                except Exception as e:  # noqa: BLE001
+                    return "ok", -1, 0
             finally:
                 import shutil
 
